@@ -512,9 +512,7 @@ int main(int argc, char** argv) {
   vf::Args a = vf::parse_args(argc, argv);
   vf::install_handlers();
   g_strict_zero_length = a.geti("strict-zero-length", 0) != 0;
-  // a case takes microseconds; the wall-clock watchdog only has to catch a genuine hang, and 20 s proved too short on a
-  // heavily oversubscribed machine (a descheduled process was reported as TIMEOUT, not reproducible)
-  vf::g_case_timeout = (int)a.geti("case-timeout", 90);
+  if (a.geti("case-timeout", 0) > 0) vf::g_case_timeout = (int)a.geti("case-timeout", 0);  // default: the harness's own
   if (!a.replay.empty()) {
     replay(a.replay);
   } else {
